@@ -110,6 +110,85 @@ impl SpaceGen {
         }
     }
 
+    /// A directory whose last cluster is exactly full, a full volume, then a rename INTO that directory (it would have
+    /// to grow by a cluster that does not exist); afterwards one cluster is given back and the rename is tried again.
+    fn fill_then_rename(&mut self, rng: &mut SplitMix64) {
+        let cs = self.cx.vol.cs as usize;
+        self.serial += 1;
+        let grow = format!("grow{}", self.serial);
+        let src = format!("src{}", self.serial);
+        for dname in [&grow, &src] {
+            let d = self.cx.new_d();
+            if !self.st(Op::CreateDir { d: 0, path: dname.clone().into_bytes(), new: d }).is_ok() {
+                return;
+            }
+            self.st(Op::DropD(d));
+        }
+        // every entry below takes two slots (one long-name slot + the short one); `.` and `..` take two
+        let slots = cs / 32;
+        let mut used = 2;
+        let mut i = 0;
+        while used + 2 <= slots {
+            let f = self.cx.new_f();
+            let p = format!("{}/e{:03}", grow, i);
+            if !self.st(Op::CreateFile { d: 0, path: p.into_bytes(), new: f }).is_ok() {
+                return;
+            }
+            self.st(Op::DropF(f));
+            used += 2;
+            i += 1;
+        }
+        let mover = format!("{}/mover with a long name.txt", src);
+        let f = self.cx.new_f();
+        if !self.st(Op::CreateFile { d: 0, path: mover.clone().into_bytes(), new: f }).is_ok() {
+            return;
+        }
+        self.st(Op::WriteAll { f, data: content(rng, 10) });
+        self.st(Op::DropF(f));
+        // fill the volume completely
+        let filler = format!("{}/filler.bin", src);
+        let f = self.cx.new_f();
+        if !self.st(Op::CreateFile { d: 0, path: filler.clone().into_bytes(), new: f }).is_ok() {
+            return;
+        }
+        for _ in 0..400 {
+            let data = content(rng, cs.min(8192));
+            if !self.st(Op::WriteAll { f, data }).is_ok() {
+                break;
+            }
+        }
+        self.st(Op::DropF(f));
+        let dst = format!("{}/moved here with long name.txt", grow);
+        let list_both = |g: &mut SpaceGen| {
+            for p in [&src, &grow] {
+                let d = g.cx.new_d();
+                if g.cx.step(Op::OpenDir { d: 0, path: p.clone().into_bytes(), new: d }).is_ok() {
+                    g.cx.step(Op::List(d));
+                    g.cx.step(Op::DropD(d));
+                }
+            }
+        };
+        self.st(Op::Rename { d: 0, src: mover.clone().into_bytes(), d2: 0, dst: dst.clone().into_bytes() });
+        list_both(self);
+        // same within the full directory: a longer name needs more slots than the old one frees
+        self.st(Op::Rename {
+            d: 0,
+            src: format!("{}/e000", grow).into_bytes(),
+            d2: 0,
+            dst: format!("{}/e000 renamed to something much longer.dat", grow).into_bytes(),
+        });
+        list_both(self);
+        // give one cluster back and try again
+        let f = self.cx.new_f();
+        if self.st(Op::OpenFile { d: 0, path: filler.into_bytes(), new: f }).is_ok() {
+            self.st(Op::Seek { f, whence: Whence::End, n: -1 });
+            self.st(Op::Truncate(f));
+            self.st(Op::DropF(f));
+        }
+        self.st(Op::Rename { d: 0, src: mover.into_bytes(), d2: 0, dst: dst.into_bytes() });
+        list_both(self);
+    }
+
     /// Sub-directories until nothing is left.
     fn fill_dirs(&mut self, rng: &mut SplitMix64, dir: &str) {
         for _ in 0..80 {
@@ -217,7 +296,9 @@ fn random_history(id: String, seed: u64, cat: &Catalogue, rng: &mut SplitMix64, 
         } else {
             String::new()
         };
-        match rng.below(5) {
+        let pick = if g.cx.vol.cs <= 1024 { rng.below(7) } else { rng.below(5) };
+        match pick {
+            5 | 6 => g.fill_then_rename(rng),
             0 => g.fill_one_big(rng, &dir),
             1 => g.fill_many(rng, &dir, false),
             2 => g.fill_many(rng, &dir, true),
